@@ -120,6 +120,7 @@ uint64_t localSums[MAXT], bulkPrefix[MAXT];
 uint64_t __CPROVER_uninterpreted_dval(size_t k);      /* d_first[k] after the per-block std::partial_sum */
 size_t g_ps_lo, g_ps_hi, g_tr_lo, g_tr_hi; uint64_t g_tr_add; unsigned g_ps_calls, g_tr_calls;     /* ghost: the ranges handed to the std algorithms */
 static inline size_t gv_min_sz(size_t a, size_t b) { return a < b ? a : b; }
+static inline size_t gv_max_sz(size_t a, size_t b) { return a > b ? a : b; }
 /* std::partial_sum(first + lo, first + hi, d_first + lo) / std::transform(d + lo, d + hi, d + lo, +numToAdd): the standard's algorithms on the given range (trusted); recorded */
 static inline void std_partial_sum_blk(size_t lo, size_t hi) { __CPROVER_assert(lo <= hi && hi <= sizeOfVector, "std::partial_sum: a valid sub-range of the input"); g_ps_lo = lo; g_ps_hi = hi; g_ps_calls++; }
 static inline void std_transform_add(size_t lo, size_t hi, uint64_t add) { __CPROVER_assert(lo <= hi && hi <= sizeOfVector, "std::transform: a valid sub-range of the output"); g_tr_lo = lo; g_tr_hi = hi; g_tr_add = add; g_tr_calls++; }
@@ -138,7 +139,7 @@ UNITS.append(Unit(
 __CPROVER_ensures(g_ps_calls == 1 && g_ps_lo == BLO(block) && g_ps_hi == BLO(block + 1) && g_ps_lo <= g_ps_hi)
 __CPROVER_ensures(localSums[block] == (BLO(block + 1) > 0 ? DVAL(BLO(block + 1) - 1) : 0))
 __CPROVER_assigns(localSums[block], g_ps_lo, g_ps_hi, g_ps_calls)""",
-    prelude=[PSP], lower=PS_L1, no_flags=['--conversion-check'], inst='ValueType = uint64_t, random-access iterators as indices',
+    prelude=[PSP], lower=PS_L1, no_flags=['--conversion-check'], timeout=1200, inst='ValueType = uint64_t, random-access iterators as indices',
     says='partial_sum, first pass, one block: the standard partial_sum runs on exactly [min(b*bs,n), min((b+1)*bs,n)) and the block\'s last running sum is recorded; the code\'s assertion holds'))
 UNITS.append(Unit(
     name='PS_block_add', src=PSTL, within=PSW, anchor=r'\[&\]\(const size_t& block\)', occurrence=1, of=2, proto='void PS_block_add(size_t block)',
@@ -147,7 +148,7 @@ __CPROVER_ensures(g_tr_calls == 1 && g_tr_lo == BLO(block) && g_tr_hi == BLO(blo
 __CPROVER_assigns(g_tr_lo, g_tr_hi, g_tr_add, g_tr_calls)""",
     prelude=[PSP], lower=[stdfn('std::min', 'gv_min_sz', 2), rx(r'assert\(blockStart <= blockEnd\);', '__CPROVER_assert(blockStart <= blockEnd, "code-assert: blockStart <= blockEnd");', 1, 1), rx(r'ValueType numToAdd', 'uint64_t numToAdd', 1, 1),
            rx(r'std::transform\(d_first \+ blockStart, d_first \+ blockEnd,\s*d_first \+ blockStart,\s*\[&\]\(ValueType& val\) \{ return val \+ numToAdd; \}\);', 'std_transform_add(blockStart, blockEnd, numToAdd);', 1, 1, flags=_re.S)],
-    no_flags=['--conversion-check'], inst='ValueType = uint64_t',
+    no_flags=['--conversion-check'], timeout=1200, inst='ValueType = uint64_t',
     says='partial_sum, second pass, one block: the block\'s offset bulkPrefix[b] is added to exactly the block\'s range'))
 UNITS.append(Unit(
     name='lemma_ps_blocks', kind='lemma', prelude=[PSP],
@@ -164,8 +165,9 @@ UNITS.append(Unit(
 __CPROVER_ensures(__CPROVER_return_value >= 1 && numBlocks * __CPROVER_return_value >= sizeOfVector && (__CPROVER_return_value - 1) * numBlocks < sizeOfVector)
 __CPROVER_assigns()""",
     prelude=[PSP.replace('size_t sizeOfVector, numBlocks, blockSize;', 'size_t sizeOfVector, numBlocks;')],
-    lower=[rx(r'\A.*?(const size_t blockSize = \(sizeOfVector \+ numBlocks - 1\) / numBlocks;\s*assert\(numBlocks \* blockSize >= sizeOfVector\);).*\Z', r'\1 return blockSize;', 1, 1, flags=_re.S),
-           rx(r'assert\(numBlocks \* blockSize >= sizeOfVector\);', '__CPROVER_assert(numBlocks * blockSize >= sizeOfVector, "code-assert: numBlocks * blockSize >= sizeOfVector");', 1, 1)],
+    lower=[rx(r'\A.*?const size_t numBlocks = galois::getActiveThreads\(\);(.*?)std::vector<ValueType> localSums.*\Z', r'\1 return blockSize;', 1, 1, flags=_re.S),   # everything between the thread count and the first pass
+           rx(r'assert\(([^;]*)\);', r'__CPROVER_assert(\1, "code-assert in the block-size computation");', 0), rx(r'constexpr ', 'const ', 0), rx(r'std::max<size_t>\(', 'gv_max_sz(', 0), rx(r'std::min<size_t>\(', 'gv_min_sz(', 0),
+           rx(r'substrate::GALOIS_CACHE_LINE_SIZE', '((size_t)128)', 0), rx(r'sizeof\(ValueType\)', 'sizeof(uint64_t)', 0)],
     no_flags=['--conversion-check'], timeout=600, inst='numBlocks <= 16',
     says='the block size is ceil(n / numBlocks): numBlocks blocks of that size cover the input (the code\'s own assertion) and no smaller size would',
     trusted=['S-slice: only the block-size computation and its assertion are taken from the function body']))
